@@ -36,11 +36,12 @@ let show_queue q = if q = [] then "-" else String.concat "," (List.map show_piec
 
 let snap enc s =
   if s.closed then "X" else
-  Printf.sprintf "%s/%d%d/%d/%s%s"
+  Printf.sprintf "%s/%d%d/%d/%s%s"  (* ...[/e<remaining>:<size_end>]/c<mapped chunk|->r<references> *)
     (match s.ws with Idle -> "I" | Msg -> "M" | WPiece -> "P")
     (if s.choked then 1 else 0) (if s.send_choked then 1 else 0)
     (List.length s.queue) (show_piece s.cur)
-    (if enc && s.ws = WPiece then Printf.sprintf "/e%d:%d" (List.length s.ebuf) (in_ s.eb_end) else "")
+    ((if enc && s.ws = WPiece then Printf.sprintf "/e%d:%d" (List.length s.ebuf) (in_ s.eb_end) else "") ^
+     (match s.upc with None -> "/c-r0" | Some i -> Printf.sprintf "/c%dr1" (in_ i)))
 
 let () = each_line (fun line ->
   match String.split_on_char '|' line with
